@@ -46,10 +46,6 @@ finding(["C02","C13"], "S5", "AP.S~Shape.S",
         "LEN = ((END - START) / STEP) ; if ((((END - START) % STEP) > 0) && (I > 0)) { LEN = (LEN + 1) } ; if (0 >= LEN) { LEN = 1 } | LEN = (END - START) <> LEN = ((END - START) / STEP) ; if (0 >= LEN) { LEN = 1 } | LEN = (END - START)", 3)
 
 # ---- engine O (ownership) ---------------------------------------------------------------------
-finding(["C19","C13","C03","C08","C04","C09","C18"], "O8", "tensor.(*Dense).ShallowClone#store1",
-        "ShallowClone shares old (and transposeWith) with the source: s := a.ShallowClone(); s.UT(); a.UT() puts one slice in the pool twice",
-        "alias stored into another object", 33)
-
 # ---- engine T (lazy-transpose typestate) ------------------------------------------------------
 
 # ---- engine P (global state) -------------------------------------------------------------------
@@ -89,6 +85,7 @@ finding(["C14"], "F1", "tensor.numpyDtypes[Int32]", "GOARCH=386: Int32 is writte
 finding(["C14"], "F1", "tensor.numpyDtypes[Uint32]", "GOARCH=386: Uint32 is written as u4, which the reader maps to Uint", "Uint32->u4->Uint", 43)
 
 FIXED = [
+ {"property":"C19","commit":"393a6d7","rule":"O8","key":"tensor.(*Dense).ShallowClone#store1","what":"fixed: property=C19 393a6d7 ShallowClone shared old (and transposeWith) with the source: s := a.ShallowClone(); s.UT(); a.UT() put one slice in the pool twice (DESIGN finding 33)"},
  {"property":"C12","commit":"06dec87","rule":"P3","key":"tensor.(StdEng).Map","what":"fixed: property=C12 06dec87 StdEng.Map with a caller-supplied reuse tensor mapped over reuse's previous contents: Apply(x2, WithReuse([10,20,30,40])) on [1 2 3 4] = [20 40 60 80] (DESIGN finding 22, reuse part; the incr part stays a known finding)"},
  {"property":"C10","commit":"bde2a07","rule":"L1","key":"tensor.(StdEng).denseRepeat@fastCopyDenseRepeat(, tensor.(StdEng).denseRepeat@copyDenseSliced(","what":"fixed: property=C10 bde2a07 denseRepeat block-copied from the operand's raw storage without consulting its layout: Repeat(a[:,1:3],1,2) was wrong (DESIGN finding 32)"},
  {"property":"C14","commit":"a2e7ce2","rule":"L1","key":"tensor.(*Dense).GobEncode@.Encode(&%data) ?$r.IsMaterializable()","what":"fixed: property=C14 a2e7ce2 GobEncode of a view wrote the whole storage window under the view's shape; GobDecode's sanity check rejected it (expected (3), got 7) (DESIGN finding 28)"},
